@@ -125,7 +125,9 @@ class CyclicCodeEncoder(SystematicLinearBlockCodeEncoder):
 
         # Extract the parity submatrix for systematic encoding
         k, n = self._dimension, self._length
-        parity_submatrix = generator_matrix[:, k:n] if information_set == "left" else generator_matrix[:, 0 : n - k]
+        # _generate_systematic_matrix returns [P | I_k] (parity on the low-degree coefficients), so the
+        # parity submatrix is always the first n-k columns, whatever information set is requested
+        parity_submatrix = generator_matrix[:, 0 : n - k]
         super().__init__(parity_submatrix=parity_submatrix, information_set=information_set, **kwargs)
 
         # Register additional buffers specific to cyclic codes
@@ -454,17 +456,10 @@ class CyclicCodeEncoder(SystematicLinearBlockCodeEncoder):
         errors in all positions. We construct it such that: H = [P^T | I_m] where P is the parity
         submatrix of G.
         """
-        # For a systematic (n,k) code with generator matrix G = [I_k | P],
-        # the check matrix is H = [P^T | I_(n-k)]
-        identity_part = torch.eye(self._redundancy, dtype=torch.float32, device=self.generator_matrix.device)
-
-        if self.information_set == "left":
-            # For 'left' information set, G = [I_k | P]
-            parity_part = self.generator_matrix[:, self._dimension :].T
-            # H = [P^T | I_m]
-            self._check_matrix = torch.cat([parity_part, identity_part], dim=1)
-        else:
-            # For 'right' information set, G = [P | I_k]
-            parity_part = self.generator_matrix[:, : self._redundancy].T
-            # H = [I_m | P^T]
-            self._check_matrix = torch.cat([identity_part, parity_part], dim=1)
+        # The generator matrix has I_k on the information set and P on the parity set, so the check
+        # matrix has P^T on the information set and I_m on the parity set (for every information set;
+        # `self.information_set` is an index tensor, it cannot be compared with the string "left")
+        check_matrix = torch.zeros((self._redundancy, self._length), dtype=torch.float32, device=self.generator_matrix.device)
+        check_matrix[:, self.information_set] = self.generator_matrix[:, self.parity_set].T.to(torch.float32)
+        check_matrix[:, self.parity_set] = torch.eye(self._redundancy, dtype=torch.float32, device=self.generator_matrix.device)
+        self._check_matrix = check_matrix
